@@ -18,7 +18,9 @@ import (
 	"strings"
 	"sync"
 	"sync/atomic"
+	"syscall"
 	"time"
+	"unsafe"
 )
 
 // Rand is a deterministic PRNG stream.
@@ -126,6 +128,9 @@ type Ctx struct {
 	TScale int
 	// QScale multiplies the quick tier's case counts likewise.
 	QScale int
+	// CPUGuard: the monitor runs on one goroutine locked to its OS thread, so Call can read the
+	// thread's CPU clock around every call (set by the worker for every property except C18).
+	CPUGuard bool
 
 	mu       sync.Mutex
 	sum      Summary
@@ -180,9 +185,14 @@ func (c *Ctx) N(quick, thorough int) int {
 	return quick * c.QScale
 }
 
+var onlyJob = os.Getenv("VERIF_ONLY_JOB")
+
 // Job iterates case indices [0,n) of a named sub-sweep, giving this shard its share.
 // fn receives a PRNG stream that depends only on (seed, property, job, index).
 func (c *Ctx) Job(name string, n int, fn func(i int, r *Rand)) {
+	if onlyJob != "" && !strings.HasPrefix(name, onlyJob) {
+		return // development aid: VERIF_ONLY_JOB=<prefix> runs a single sub-sweep
+	}
 	for i := 0; i < n; i++ {
 		if c.Replaying {
 			if name != c.ReplayJob || int64(i) != c.ReplayIndex {
@@ -512,6 +522,22 @@ func PanicCulprit(stack string) string {
 	return ""
 }
 
+// ThreadCPU reads CLOCK_THREAD_CPUTIME_ID: the CPU time consumed by the calling OS thread, with
+// the scheduler's nanosecond accounting (getrusage is tick-based here and reads zero below a
+// millisecond). Meaningful only on a goroutine locked to its thread.
+func ThreadCPU() time.Duration {
+	var ts syscall.Timespec
+	syscall.Syscall(syscall.SYS_CLOCK_GETTIME, 3, uintptr(unsafe.Pointer(&ts)), 0)
+	return time.Duration(ts.Nano())
+}
+
+// CPU guard of Call: a single call into the library may not burn more than this much CPU time of
+// its own thread. It is not a wall-clock deadline (a loaded machine does not move it) and sits two
+// orders of magnitude above the most expensive legitimate call (a 10 MiB base32 round trip, a DSA
+// verification), so it only fires on work that is far out of proportion to the input.
+const CPUGuardBase = 2 * time.Second
+const CPUGuardPerByte = 20 * time.Microsecond
+
 // Call runs f (a call into the library) under the event discipline: the operation and
 // its input are written to the pending file first, panics are recovered and returned.
 // It reports whether f panicked.
@@ -547,6 +573,15 @@ func (c *Ctx) Call(op string, input []byte, f func()) (panicked bool, pv any, st
 			}
 		}
 	}()
+	if c.CPUGuard {
+		t0 := ThreadCPU()
+		f()
+		if d := ThreadCPU() - t0; d > CPUGuardBase+time.Duration(len(input))*CPUGuardPerByte {
+			c.ViolateP("C04", op, "cpu-time-out-of-proportion-to-input", map[string]any{"seen_by": c.Prop}, input,
+				fmt.Sprintf("the call consumed %v of CPU time on its own thread for an input of %d bytes (guard: %v + %v per byte)", d, len(input), CPUGuardBase, CPUGuardPerByte), "")
+		}
+		return
+	}
 	f()
 	return
 }
